@@ -111,6 +111,8 @@ type cpModStream struct {
 	dropElec int
 	// the election id this session announced last (for faults that misreport per session)
 	lastAnnounced *spb.Uint128
+	// operation ids the fault has decided to answer FAILED although the server programs them
+	nack map[uint64]bool
 }
 
 func (s *cpModStream) Send(m *spb.ModifyResponse) error {
@@ -674,6 +676,40 @@ func cpFaults() []*cpFault {
 			targets: []string{"Add IPv4 entries that are resolved by NHG and NH, in random order"},
 			noFwd:   true,
 			repeat:  8,
+		},
+		{
+			// a server that reports FAILED for some of the entries of a large batch (every next-hop
+			// whose index ends in 7): a test that programs many entries and checks their results
+			// must notice, whichever of them it is
+			name:    "nacks-some-next-hops-of-a-batch",
+			targets: []string{"Benchmark Get for next-hops"},
+			interceptReq: func(st *cpModStream, m *spb.ModifyRequest) bool {
+				for _, op := range m.GetOperation() {
+					if nh := op.GetNextHop(); nh != nil && op.GetOp() == spb.AFTOperation_ADD && nh.GetIndex()%10 == 7 {
+						st.mu.Lock()
+						if st.nack == nil {
+							st.nack = map[uint64]bool{}
+						}
+						st.nack[op.GetId()] = true
+						st.mu.Unlock()
+					}
+				}
+				return false
+			},
+			modSendSt: func(st *cpModStream, m *spb.ModifyResponse) *spb.ModifyResponse {
+				if len(m.GetResult()) == 0 {
+					return m
+				}
+				out := proto.Clone(m).(*spb.ModifyResponse)
+				st.mu.Lock()
+				for _, r := range out.Result {
+					if st.nack[r.GetId()] {
+						r.Status = spb.AFTResult_FAILED
+					}
+				}
+				st.mu.Unlock()
+				return out
+			},
 		},
 		{
 			name:    "fails-idempotent-deletes",
